@@ -227,6 +227,7 @@ func checkC07(w *World, r *Report) {
 	}
 	checkChainsApplied(w, r)
 	checkEscapeNeverRebound(w, r, escapeFn)
+	checkApplyWritesFilterResult(w, r)
 }
 
 func objName(o types.Object) string {
@@ -617,4 +618,143 @@ func checkEscapeNeverRebound(w *World, r *Report, escapeFn *types.Func) {
 	if n == 0 {
 		r.note("the escape names are only bound in the registration table literal")
 	}
+}
+
+// checkApplyWritesFilterResult — R07.7: what an apply block writes is what its filter returned.
+// In the Render method of every node type that names a filter and applies it (ApplyFilter with
+// the node's filter field), every value written to the output parameter derives, on every
+// incoming edge, from the result of that ApplyFilter call (through string conversions).  A
+// branch that writes the unfiltered body instead — "already encoded", "nothing to do" — makes
+// `{% apply escape %}` differ from `|escape` for the inputs that take it.
+func checkApplyWritesFilterResult(w *World, r *Report) {
+	applyFilter := w.method("RenderContext", "ApplyFilter")
+	n := 0
+	for _, nt := range w.nodeStructs() {
+		m := w.tryMethod(nt.Obj().Name(), "Render")
+		if m == nil {
+			continue
+		}
+		fn := w.ssaFunc(m)
+		if fn == nil || len(fn.Params) < 2 {
+			continue
+		}
+		var applies []*ssa.Call
+		instrsOf(fn, func(in ssa.Instruction) {
+			if c, ok := in.(*ssa.Call); ok && calleeFunc(c) == applyFilter {
+				if _, f := originField(callArgs(c)[0], 0); f == "filter" {
+					applies = append(applies, c)
+				}
+			}
+		})
+		if len(applies) == 0 {
+			continue
+		}
+		out := fn.Params[1] // the io.Writer
+		var leafBad func(v ssa.Value, seen map[ssa.Value]bool, depth int) string
+		leafBad = func(v ssa.Value, seen map[ssa.Value]bool, depth int) string {
+			v = unspill(v)
+			if seen[v] || depth > 12 {
+				return ""
+			}
+			seen[v] = true
+			switch x := v.(type) {
+			case *ssa.Const:
+				return ""
+			case *ssa.Phi:
+				for _, e := range x.Edges {
+					if b := leafBad(e, seen, depth+1); b != "" {
+						return b
+					}
+				}
+				return ""
+			case *ssa.Convert:
+				return leafBad(x.X, seen, depth+1)
+			case *ssa.ChangeType:
+				return leafBad(x.X, seen, depth+1)
+			case *ssa.MakeInterface:
+				return leafBad(x.X, seen, depth+1)
+			case *ssa.TypeAssert:
+				return leafBad(x.X, seen, depth+1)
+			case *ssa.Extract:
+				if c, ok := x.Tuple.(*ssa.Call); ok {
+					for _, a := range applies {
+						if a == c && x.Index == 0 {
+							return ""
+						}
+					}
+				}
+				return leafBad(x.Tuple, seen, depth+1)
+			case *ssa.Call:
+				// a conversion helper: every data argument must itself be the filter result
+				args := callArgs(x)
+				data := 0
+				for _, a := range args {
+					if isNamed(deref(a.Type()), twigPath, "RenderContext") {
+						continue
+					}
+					data++
+					if b := leafBad(a, seen, depth+1); b != "" {
+						return b
+					}
+				}
+				if data > 0 {
+					return ""
+				}
+			}
+			return v.Name() + " (" + v.String() + ")"
+		}
+		instrsOf(fn, func(in ssa.Instruction) {
+			c, ok := in.(ssa.CallInstruction)
+			if !ok {
+				return
+			}
+			args := c.Common().Args
+			if c.Common().IsInvoke() {
+				args = append([]ssa.Value{c.Common().Value}, args...)
+			}
+			toOut := false
+			for _, a := range args {
+				if unspill(a) == ssa.Value(out) {
+					toOut = true
+				}
+			}
+			if !toOut {
+				return
+			}
+			if g := c.Common().StaticCallee(); g != nil && isTwigFn(g) && isNodeRender(g) {
+				return
+			}
+			if c.Common().IsInvoke() && c.Common().Method.Name() == "Render" {
+				return // a child rendered straight to the output: not this rule's subject
+			}
+			n++
+			construct := "the apply block writes the filter's result"
+			bad := ""
+			for _, a := range args {
+				if unspill(a) == ssa.Value(out) {
+					continue
+				}
+				switch a.Type().Underlying().(type) {
+				case *types.Basic, *types.Slice, *types.Interface:
+				default:
+					continue
+				}
+				for _, e := range variadicElems(a) {
+					if b := leafBad(e, map[ssa.Value]bool{}, 0); b != "" {
+						bad = b
+					}
+				}
+			}
+			if bad == "" {
+				r.ok("R07.7", ssaName(fn), construct, w.posOf(in.Pos()), "every written value is the ApplyFilter result, converted", true)
+			} else {
+				r.bad("R07.7", ssaName(fn), construct, w.posOf(in.Pos()), "the node writes "+bad+", which on some path is not the result of applying its filter: for the bodies that take that path `{% apply f %}` is not `|f` (with escape: text that is not escaped, or escaped text that no longer decodes to the original)")
+			}
+		})
+	}
+	r.floor("writes of an applied filter's result", n, 1)
+}
+
+func isNodeRender(g *ssa.Function) bool {
+	return g.Name() == "Render" && g.Signature.Recv() != nil
 }
